@@ -4,10 +4,11 @@
 //!   ok / ok6      accept at once (IPv4 / IPv6 loopback listener; the harness counts what each listener accepts)
 //!   refuse / refuse6   refuse at once (a port nobody listens on)
 //!   hang          never answer (a listener whose accept queue has been filled: further SYNs are dropped)
-//! With `bind6 = 1` the transport is told to bind IPv6 sockets to an address this host does not have, so every IPv6
-//! candidate fails while it is being set up.
+//! Local addresses: `<b4><b6>` with b4 in - (none) s (127.0.0.1) w (0.0.0.0) and b6 in - s (::1) w (::) x (an address
+//! this host does not have, so every IPv6 candidate fails while it is being set up); `0` = `--`, `1` = `-x`.
+//! Which families are bound decides the preferred family and with it the order of the attempts (C16).
 //!
-//! line: `tcpc <happy_eyeballs_timeout ms|-> <concurrency|-> <connect_timeout ms|-> <bind6 0|1> ; <cand> ; …`
+//! line: `tcpc <happy_eyeballs_timeout ms|-> <concurrency|-> <connect_timeout ms|-> <local addresses> ; <cand> ; …`
 //! obs : `<ok|timeout|err> <winner index | error kind refused|ctimeout|bind|other | -> <elapsed ms> ; <connections accepted per candidate, - if not a listener>…`
 //!       or `unreliable` when the machine stalled during the case (a 5 ms heartbeat saw a gap of more than 40 ms)
 use crate::rng::Rng;
@@ -23,10 +24,19 @@ pub fn gen(r: &mut Rng, _i: u64) -> String {
     let t = *r.pick(&["300", "600", "600", "-"]);
     let ct = *r.pick(&["-", "-", "120"]);
     let conc = *r.pick(&["1", "1", "1", "2", "-"]);
-    let bind6 = r.chance(1, 4) as u8;
+    let order_case = r.chance(1, 3);
+    let bind6 = if order_case { *r.pick(&["s-", "w-", "-s", "-w", "sw", "ws", "ww", "ss", "wx", "sx"]) } else if r.chance(1, 4) { "1" } else { "0" };
     let n = r.range(1, 4);
     let kinds: &[&str] = if t == "-" && ct == "-" { &["ok", "refuse", "refuse", "ok6", "refuse6"] } else { &["ok", "refuse", "hang", "hang", "ok6", "refuse6"] };
     let mut cands: Vec<&str> = (0..n).map(|_| *r.pick(kinds)).collect();
+    if order_case {
+        // both families answer: who wins is a matter of the order of the attempts alone
+        let t = if t == "-" && r.chance(3, 4) { "600" } else { t };
+        let mut cands: Vec<&str> = (0..r.range(2, 5)).map(|_| *r.pick(&["ok", "ok6", "ok", "ok6", "refuse", "refuse6"])).collect();
+        if !cands.contains(&"ok") { cands.push("ok"); }
+        if !cands.contains(&"ok6") { cands.push("ok6"); }
+        return format!("{t} 1 {ct} {bind6} ; {}", cands.join(" ; "));
+    }
     // most cases end with somebody who answers, so that the order and pacing of the attempts decide the outcome
     if r.chance(2, 3) { cands.push(*r.pick(&["ok", "ok", "ok6"])); }
     format!("{t} {conc} {ct} {bind6} ; {}", cands.join(" ; "))
@@ -74,7 +84,10 @@ pub fn run(toks: &[&str]) -> String {
     config.happy_eyeballs_timeout = opt(parts[0][0]);
     config.happy_eyeballs_concurrency = parts[0][1].parse::<usize>().ok();
     config.connect_timeout = opt(parts[0][2]);
-    if parts[0][3] == "1" { config.local_address_ipv6 = Some("2001:db8::1".parse().unwrap()); }
+    let local = match parts[0][3] { "0" => "--", "1" => "-x", l => l };
+    if local.len() != 2 { return "bad-line".into(); }
+    config.local_address_ipv4 = match &local[0..1] { "-" => None, "s" => Some(std::net::Ipv4Addr::LOCALHOST), "w" => Some(std::net::Ipv4Addr::UNSPECIFIED), _ => return "bad-line".into() };
+    config.local_address_ipv6 = match &local[1..2] { "-" => None, "s" => Some(std::net::Ipv6Addr::LOCALHOST), "w" => Some(std::net::Ipv6Addr::UNSPECIFIED), "x" => Some("2001:db8::1".parse().unwrap()), _ => return "bad-line".into() };
     let kinds: Vec<String> = parts[1..].iter().map(|p| p[0].to_string()).collect();
     let hole = if kinds.iter().any(|k| k == "hang") { Some(blackhole()) } else { None };
 
